@@ -305,6 +305,8 @@ func runOracles(job JobCfg, res *Result) {
 		}
 		if d := checkFieldNames(c, job); d != "" {
 			res.Checks["C13"] = d
+		} else if d := checkDerivedNames(c, job); d != "" {
+			res.Checks["C13"] = d
 		}
 		if d := checkPanicMsgs(c, job); d != "" {
 			res.Checks["C07"] = d
